@@ -92,10 +92,12 @@ Example ex_narrow_f2i_pass : h_narrow_f2i I8 true (FFin 5 2) = ORet 20 /\ h_narr
 Proof. vm_compute. split; reflexivity. Qed.
 
 (* ---------- order of the effects of `local v1, .., vn = e1, .., em` (VarDecl.v) ---------- *)
-Lemma vardecl_order_refuted : ~ vardecl_order_dce_full vardecl_policy.
-Proof. intro F. apply vd_dce_iff in F. discriminate F. Qed.
-(* the witness itself: local a, b = f(), g() with b never read *)
-Example vardecl_witness : vd_effects vardecl_policy false wit_dead_later = [2%nat; 1%nat] /\
+(* since /repo d685d37 the initializer of a dropped variable goes to defemitter (scraped): dead code elimination no
+   longer changes the order *)
+Lemma vardecl_order_dce : vardecl_order_dce_full vardecl_policy.
+Proof. apply vd_dce_iff. reflexivity. Qed.
+(* the former witness, local a, b = f(), g() with b never read: f first in both modes *)
+Example vardecl_witness : vd_effects vardecl_policy false wit_dead_later = [1%nat; 2%nat] /\
                           vd_effects vardecl_policy true wit_dead_later = [1%nat; 2%nat].
 Proof. split; reflexivity. Qed.
 
